@@ -132,6 +132,18 @@ def run(ctx):
             ident("gaus-integrates-to-1", float(np.sum(ut.gaus(grid, mu, sd)) * (grid[1] - grid[0])), 1.0, tol=100)
         ctx.case(("identities", int(np.log10(x)) // 5, int(dB) // 100))
     ident("Q(0)=1/2", ut.Q(0), 0.5)
+    # array arguments are write-protected: a utility that works in place on its argument raises inside the library
+    for fn_name in ("db", "dbm", "idb", "idbm", "Q", "gaus"):
+        arr = np.array([0.5, 1.0, 20.0, 33.0])
+        arr.flags.writeable = False
+        keep = arr.copy()
+        with deadline(10), warnings.catch_warnings():
+            warnings.simplefilter("ignore")
+            out1 = np.array(getattr(ut, fn_name)(arr), dtype=float)
+            out2 = np.array(getattr(ut, fn_name)(arr), dtype=float)
+        ident("array-argument-untouched:" + fn_name, float(np.sum(np.abs(arr - keep))) + 1, 1.0)
+        ident("array-argument-untouched:" + fn_name, float(np.sum(np.abs(out1 - out2))) + 1, 1.0)
+        ctx.case(("array-arg", fn_name))
     for fn in ("db", "dbm"):
         for val, neg in [(-1.0, True), ([1.0, -2.0], True), (2.0, False), ([1.0, 3.0], False), (np.array([0.5, -1e-9]), True)]:
             try:
